@@ -117,7 +117,7 @@ pub fn check(cx: &Cx, rep: &mut Report) {
         }
         // R6: detach leaves the actor unaffected: no termination event between detach and the next
         // termination cause
-        for d in ix.ops.iter().filter(|o| o.tag == af.tag && o.op == OpK::Detach && matches!(o.res, Some(Res::Handle { some: true, .. }))) {
+        for d in ix.ops.iter().filter(|o| !af.is_child && o.tag == af.tag && o.op == OpK::Detach && matches!(o.res, Some(Res::Handle { some: true, .. }))) {
             rep.premise("C17.R6.detach_keeps_running");
             nontrivial = true;
             let r = d.e.unwrap_or(u64::MAX);
